@@ -205,11 +205,13 @@ var pendingCaches []*cache.File
 func commitCaches(ok bool) {
 	for _, f := range pendingCaches {
 		if !ok {
-			// Unlink before closing: closing writes a valid header, and the
-			// entry of a failed run must never be valid under its name.
+			// The entry of a failed run must never be valid under its name:
+			// it is not finalised, whether or not it can be unlinked.
 			os.Remove(f.Name())
+			f.Discard()
+			continue
 		}
-		if err := f.Close(); err != nil && ok {
+		if err := f.Close(); err != nil {
 			os.Remove(f.Name())
 		}
 	}
